@@ -47,6 +47,7 @@ def check(m, run):
     from .. import layout
     summ, _contracts = layout.flip_summaries(m)
     c13.transpose_checks(m, run, summ)
+    _sd.fl3(m, run)      # flipping a surface goes through the setter: every cached view follows the reversed net
     from . import c10
     c10.pu2(m, run)      # without inplace, the transforms return an object that shares nothing with their argument: editing one never changes the other
     run.floor('IV1.no-stale-cache', 600, 'class x entry x cache triples on the pinned tree')
